@@ -247,12 +247,12 @@ class Exec:
         if t == "addc":
             parent = self.root if op[1] is None else self.root.get(op[1])
             p = self.construct(op[2], parent)
-            self.ids[id(p)] = op[2]["id"]; self.keep.append(p)
+            self.ids[id(p)] = self.nops + 1; self.keep.append(p)
             return ["none"]
         if t == "addm":
             parent = self.root if op[1] is None else self.root.get(op[1])
             p = self.construct(op[2], None)
-            self.ids[id(p)] = op[2]["id"]; self.keep.append(p)
+            self.ids[id(p)] = self.nops + 1; self.keep.append(p)
             if op[1] is None:
                 self.model.add_parameter(p)
             else:
@@ -282,7 +282,7 @@ class Exec:
         if out[0] == "param":
             ret_obj = out[1]
             out = ["param", self.ids.get(id(ret_obj), -1)]
-        new_id = op[2]["id"] if t in ("addc", "addm") else None
+        new_id = self.nops + 1 if t in ("addc", "addm") else None
         now = self.dump(new_id)
         if self.oracle_on and self.bad is None:
             b = self.check(op, out, exc_name, now, pre_target, pre_parent, pre_dup, ret_obj)
@@ -472,7 +472,7 @@ def value_for(rng, p):
     return vany(rng)
 
 
-def gen_spec(rng, next_id, depth_ok, taken):
+def gen_spec(rng, depth_ok, taken):
     kind = rng.choice(KINDS if depth_ok else KINDS[1:])
     if kind == "map" and rng.random() < 0.25:
         kind = rng.choice(KINDS[1:])
@@ -483,7 +483,7 @@ def gen_spec(rng, next_id, depth_ok, taken):
         key = rng.choice(BADKEYS)
     elif r < 0.15 and taken:
         key = rng.choice(sorted(taken))               # duplicate
-    spec = {"id": next_id, "key": key, "prio": rng.choice(PRIOS), "ro": rng.random() < 0.22, "kind": kind,
+    spec = {"key": key, "prio": rng.choice(PRIOS), "ro": rng.random() < 0.22, "kind": kind,
             "default": ["none"]}
     bad = rng.random() < 0.2                       # make the constructor reject something
     if kind in ("int", "float", "qty"):
@@ -541,7 +541,6 @@ def gen_and_run(rng, n_ops, malformed=False):
     P = mods()["P"]
     ex = Exec(True)
     obs = []
-    next_id = 1
     pbad = 0.35 if malformed else 0.12
     for i in range(n_ops):
         leafs, maps, depth_of = [], [], {}
@@ -564,8 +563,7 @@ def gen_and_run(rng, n_ops, malformed=False):
             par = ex.root if pp is None else ex.resolve(pp)
             taken = set(par.value.keys()) if isinstance(par, P.InputParameterMap) else set()
             depth_ok = (depth_of.get(pp, 1) if pp else 1) < 3
-            op = [variant, pp, gen_spec(rng, next_id, depth_ok, taken)]
-            next_id += 1
+            op = [variant, pp, gen_spec(rng, depth_ok, taken)]
         elif r < 0.66:
             t = "set" if rng.random() < 0.65 else "mset"
             if leafs and rng.random() > pbad:
@@ -701,7 +699,7 @@ class Emitter:
             kind = f"(SUnit {sp['qcls']}%N {self.name('u', C.clist(cstr(u) for u in units))})"
         d = "VNone" if k == "map" else self.val(arg_canon(sp["default"]))
         ro = "true" if k == "map" else C.cbool(sp["ro"])
-        return f"(mkSpec {sp['id']} {self.s(sp['key'])} {cprio(sp['prio'])} {ro} {kind} {d})"
+        return f"(mkSpec {self.s(sp['key'])} {cprio(sp['prio'])} {ro} {kind} {d})"
 
     def op(self, op):
         t = op[0]
